@@ -100,29 +100,34 @@ func (e *Engine) sha1UUID(inp []*Term) Slice {
 			}
 			app.out = append(app.out, o)
 		}
-		// injectivity against earlier applications
-		for _, old := range e.sha1Apps {
-			if !old.sym && !app.sym {
-				continue
-			}
-			outEq := e.ts.tru
-			for i := 15; i >= 0; i-- {
-				outEq = e.ts.BAnd(e.ts.Cmp(opEq, app.out[i], old.out[i]), outEq)
-			}
-			if len(old.in) != len(app.in) {
-				e.assume(e.ts.BNot(outEq))
-				continue
-			}
-			inEq := e.ts.tru
-			for i := len(inp) - 1; i >= 0; i-- {
-				inEq = e.ts.BAnd(e.ts.Cmp(opEq, app.in[i], old.in[i]), inEq)
-			}
-			if inEq.IsTrue() {
-				continue
-			}
-			// outEq ⇒ inEq
-			e.assume(e.ts.BOr(e.ts.BNot(outEq), inEq))
+	}
+	// injectivity against earlier applications (skipping concrete/concrete pairs)
+	added := false
+	for _, old := range e.sha1Apps {
+		if !old.sym && !app.sym {
+			continue
 		}
+		outEq := e.ts.tru
+		for i := 15; i >= 0; i-- {
+			outEq = e.ts.BAnd(e.ts.Cmp(opEq, app.out[i], old.out[i]), outEq)
+		}
+		if len(old.in) != len(app.in) {
+			e.assume(e.ts.BNot(outEq))
+			added = true
+			continue
+		}
+		inEq := e.ts.tru
+		for i := len(inp) - 1; i >= 0; i-- {
+			inEq = e.ts.BAnd(e.ts.Cmp(opEq, app.in[i], old.in[i]), inEq)
+		}
+		if inEq.IsTrue() {
+			continue
+		}
+		// outEq ⇒ inEq
+		e.assume(e.ts.BOr(e.ts.BNot(outEq), inEq))
+		added = true
+	}
+	if added {
 		e.modelOK = false
 	}
 	e.sha1Apps = append(e.sha1Apps, app)
